@@ -31,7 +31,9 @@ func init() {
 		if !known {
 			for _, h := range p.sigApps {
 				if len(h.in) == len(pub)+len(msg) {
-					m.addFact(tt.Implies(tt.Eq(h.out, lo), tt.Eq(tt.Concat(h.in...), in)))
+					// compare the inputs with bytesEq: messages are usually hashes, and only bytesEq adds the
+					// collision-freeness facts that make H(x) = H(x') imply x = x'
+					m.addFact(tt.Implies(tt.Eq(h.out, lo), m.bytesEq(h.in, append(append([]*Term{}, pub...), msg...))))
 				} else {
 					m.addFact(tt.Not(tt.Eq(h.out, lo)))
 				}
